@@ -129,10 +129,32 @@ func qrPayload(rng *fw.Rand, mode qrref.Mode, n int) (text string, segs []qrref.
 		return string(b), []qrref.Segment{{Mode: qrref.Numeric, Data: b, ECI: -1}}, ""
 	case qrref.Alphanumeric:
 		b := make([]byte, n)
-		for i := range b {
-			b[i] = qrref.AlnumCharset[rng.Intn(45)]
+		// three sub-alphabets: the whole 45-character set, digits with the nine punctuation characters
+		// only (telephone numbers, dates, prices: alphanumeric material without a single letter), and
+		// letters only
+		lo, span := 0, 45
+		switch rng.Intn(4) {
+		case 0:
+			lo, span = 36, 9 // no letter: the one non-digit below is punctuation, the rest digits or punctuation
+		case 1:
+			lo, span = 10, 26
 		}
-		b[rng.Intn(n)] = qrref.AlnumCharset[10+rng.Intn(35)]
+		for i := range b {
+			if lo == 36 {
+				if rng.Intn(3) == 0 {
+					b[i] = qrref.AlnumCharset[36+rng.Intn(9)]
+				} else {
+					b[i] = qrref.AlnumCharset[rng.Intn(10)]
+				}
+			} else {
+				b[i] = qrref.AlnumCharset[lo+rng.Intn(span)]
+			}
+		}
+		if lo == 0 {
+			b[rng.Intn(n)] = qrref.AlnumCharset[10+rng.Intn(35)]
+		} else if lo == 36 {
+			b[rng.Intn(n)] = qrref.AlnumCharset[36+rng.Intn(9)]
+		}
 		return string(b), []qrref.Segment{{Mode: qrref.Alphanumeric, Data: b, ECI: -1}}, ""
 	case qrref.Byte:
 		b := make([]byte, 0, n)
